@@ -78,3 +78,38 @@ Proof.
   rewrite vdot_vadd_l, vdot_vadd_r by (rewrite !mvmul_length; rcong).
   rewrite SA, SB by auto. reflexivity.
 Qed.
+
+(* entrywise symmetry from the action form, through unit vectors *)
+Lemma unitv_length d : forall i, length (@unitv ROps d i) = d.
+Proof. induction d; intros [|i]; cbn; auto. rewrite vzero_length; auto. Qed.
+Lemma vdot_unitv_r d : forall i (x : Rv), length x = d -> (i < d)%nat ->
+  vdotR x (unitv d i) = nth i x 0.
+Proof.
+  induction d; intros i x Hx Hi; [lia|].
+  destruct x as [|a x]; [discriminate|]. destruct i as [|i]; cbn.
+  - rewrite vdot_vzero_r. rsimp. ring.
+  - rewrite IHd by (cbn in Hx; lia). rsimp. ring.
+Qed.
+Lemma mvmul_nth (A : Rm) x i : (i < length A)%nat ->
+  nth i (mvmulR A x) 0 = vdotR (nth i A []) x.
+Proof.
+  intro H. unfold mvmul.
+  rewrite (nth_indep _ 0 (vdotR [] x)) by (rewrite map_length; auto).
+  apply (map_nth (fun r => vdotR r x)).
+Qed.
+Lemma symop_entrywise d (A : Rm) : wfmR d d A -> symop d A ->
+  forall i j, (i < d)%nat -> (j < d)%nat -> nth i (nth j A []) 0 = nth j (nth i A []) 0.
+Proof.
+  intros [HA1 HA2] S i j Hi Hj.
+  assert (Wi: wfvR d (unitv d i)) by apply unitv_length.
+  assert (Wj: wfvR d (unitv d j)) by apply unitv_length.
+  pose proof (S (unitv d i) (unitv d j) Wi Wj) as E.
+  rewrite vdot_unitv_r in E by (rewrite ?mvmul_length; auto).
+  rewrite (vdot_comm (@unitv ROps d i)), vdot_unitv_r in E by (rewrite ?mvmul_length; auto).
+  rewrite !mvmul_nth in E by (rsimp; lia).
+  assert (Li: length (nth i A []) = d).
+  { rewrite Forall_forall in HA2. apply HA2. apply nth_In. rsimp; lia. }
+  assert (Lj: length (nth j A []) = d).
+  { rewrite Forall_forall in HA2. apply HA2. apply nth_In. rsimp; lia. }
+  rewrite !vdot_unitv_r in E by auto. exact E.
+Qed.
